@@ -9,6 +9,7 @@ import (
 	"fmt"
 	"reflect"
 	"sort"
+	"strconv"
 	"strings"
 	"testing"
 
@@ -349,7 +350,64 @@ func relatedValue(rt *rapid.T, v *Value) *Value {
 		}
 	}
 	walk(c, 0)
-	switch rapid.IntRange(0, 3).Draw(rt, "edit") {
+	switch rapid.IntRange(0, 4).Draw(rt, "edit") {
+	case 4: // a text and the number right behind it re-split: ("Q1", 23) becomes ("Q12", 3) - the same characters when
+		// the two are written one after the other without a separator (keys built by concatenation)
+		for tries := 0; tries < 12 && len(texts) >= 1; tries++ {
+			a := texts[rapid.IntRange(0, len(texts)-1).Draw(rt, "rs")]
+			ts := Types[a.val.Type]
+			if a.i+1 >= len(ts.Fields) || ts.Fields[a.i+1].Kind != "num" || strings.HasPrefix(ts.Fields[a.i+1].NType, "float") {
+				continue
+			}
+			f, nf := ts.Fields[a.i], ts.Fields[a.i+1]
+			t := refFixedRead(a.val.F[a.i].T, byte(f.Pad), f.Left)
+			if len(t) >= f.Width {
+				t = t[:f.Width-1] // make room (the incoming message is untouched; only the receiver's copy is edited)
+				if len(t) > 0 && !f.Left && t[len(t)-1] == byte(f.Pad) {
+					continue
+				}
+			}
+			bits := a.val.F[a.i+1].N & NMask(nf.NType)
+			var dec string
+			if strings.HasPrefix(nf.NType, "int") {
+				sh := uint(64 - 8*NSize(nf.NType))
+				dec = strconv.FormatInt(int64(bits<<sh)>>sh, 10)
+			} else {
+				dec = strconv.FormatUint(bits, 10)
+			}
+			if len(dec) < 2 {
+				// give the incoming number a second digit: not possible here (the incoming message is fixed); try another pair
+				continue
+			}
+			rest := dec[1:]
+			if len(rest) > 1 && rest[0] == '0' || rest == "-" {
+				continue
+			}
+			var nb uint64
+			if strings.HasPrefix(nf.NType, "int") {
+				v, err := strconv.ParseInt(rest, 10, 64)
+				if err != nil {
+					continue
+				}
+				nb = uint64(v) & NMask(nf.NType)
+			} else {
+				v, err := strconv.ParseUint(rest, 10, 64)
+				if err != nil {
+					continue
+				}
+				nb = v
+			}
+			nt := append(append([]byte{}, t...), dec[0])
+			if len(t) != len(refFixedRead(a.val.F[a.i].T, byte(f.Pad), f.Left)) {
+				// the text was shortened to make room: then the receiver's text is not text+digit of the incoming one; skip
+				continue
+			}
+			a.val.F[a.i].T = refFixedWrite(nt, f.Width, byte(f.Pad), f.Left)
+			a.val.F[a.i+1].N = nb
+			Col.Class("receiver-holds-text+number-re-split-of-the-incoming-ones", 1)
+			return c
+		}
+		fallthrough
 	case 3: // one text decorated with white space around the same content (shifted inside its field)
 		for tries := 0; tries < 8 && len(texts) >= 1; tries++ {
 			a := texts[rapid.IntRange(0, len(texts)-1).Draw(rt, "td")]
